@@ -142,9 +142,8 @@ impl PathRequireMode {
             source_path.display(),
         );
 
-        let mut generated_path = if path_utils::is_require_relative(require_path) {
-            require_path.to_path_buf()
-        } else {
+        // the require path is relative to the current directory (or absolute), never to the source file
+        let mut generated_path = {
             let normalized_require_path = utils::normalize_path(require_path);
             log::trace!(
                 " ⨽ adjust non-relative path `{}` (normalized to `{}`) from `{}`",
